@@ -19,6 +19,7 @@ import NeoModel.Proofs.CodecNep2
 import NeoModel.Proofs.CodecFixedInv
 import NeoModel.Proofs.CodecUintInv
 import NeoModel.Proofs.CodecConsts
+import NeoModel.Proofs.CodecKeysMisc
 namespace NeoModel.Codec
 variable {Sig Key : Type}
 
@@ -450,6 +451,29 @@ example : (countEncodings 16).length = 7 ∧ (countEncodings 17).length = 6 ∧ 
 over 33-byte strings (it does not check that the bytes are a curve point). -/
 theorem sig_script_parse_iff (s k : Bytes) : parseSigContract s = some k ↔ k.length = 33 ∧ s = sigScript k :=
   parseSig_iff' s k
+
+/-- C18 (scripts): `CreateDefaultMultiSigRedeemScript` and `CreateMajorityMultiSigRedeemScript`
+succeed on every list of 1..1024 (non-infinity) keys and parse back to the sorted keys with
+`m = n − (n−1)/3` (more than two thirds) resp. `m = n − (n−1)/2` (more than half). -/
+theorem multisig_default_majority (keys : List PubKey) (h1 : 1 ≤ keys.length) (h3 : keys.length ≤ 1024)
+    (hinf : ∀ k ∈ keys, k ≠ none) :
+    (∃ s m, createDefaultMultiSigK keys = some s ∧ parseMultiSig s = some (m, (sortKeys keys).map pkBytes) ∧
+        2 * keys.length < 3 * m ∧ m ≤ keys.length) ∧
+    (∃ s m, createMajorityMultiSigK keys = some s ∧ parseMultiSig s = some (m, (sortKeys keys).map pkBytes) ∧
+        keys.length < 2 * m ∧ m ≤ keys.length) := parse_createDefault keys h1 h3 hinf
+
+example : defaultHonest 4 = 3 ∧ defaultHonest 7 = 5 ∧ majorityHonest 4 = 3 ∧ majorityHonest 7 = 4 ∧
+    (createDefaultMultiSigK [some (7, 4), some (3, 9), some (7, 2), some (1, 1)]).isSome = true := by decide
+
+/-- C18 (private keys): `NewPrivateKeyFromBytes` accepts exactly the 32-byte strings, each of which is
+`Bytes()` of the scalar it yields, and `NewPrivateKeyFromBytes (d.Bytes()) = d` for every `d < 2^256`
+(with `wif_accepts_iff`: WIF ↔ scalar in both directions). -/
+theorem privkey_bytes_roundtrip (b : Bytes) (d : Nat) :
+    (privFromBytes b = some d ↔ b.length = 32 ∧ d < 2 ^ 256 ∧ b = privBytes d) ∧
+    (d < 2 ^ 256 → privFromBytes (privBytes d) = some d) := priv_roundtrip b d
+
+example : privFromBytes (privBytes 258) = some 258 ∧ privFromBytes [1, 2, 3] = none :=
+  ⟨(privkey_bytes_roundtrip [] 258).2 (by decide), by decide⟩
 
 /-! ## byte layouts of keys and signatures (the cryptography itself is a parameter) -/
 
